@@ -260,43 +260,61 @@ def describe(ev):
 
 
 def run_histories(ctx, scripts, env):
+    """Drives and judges the histories in batches (the recorded events of all histories at once take many gigabytes)."""
     binp = ctx.go_build(DRIVER)
     timed = [s for s in scripts if s.get("timed")]
     plain = [s for s in scripts if not s.get("timed")]
-    res = []
-    if plain:
-        res += vlib.drive(ctx, binp, plain, chunk=max(2, (len(plain) + 47) // 48), timeout=600, env=env)
-    if timed:
-        res += vlib.drive(ctx, binp, timed, chunk=max(1, (len(timed) + 31) // 32), timeout=1200, env=env, par=32)
-    order = plain + timed
-    hists, owner, crashes = split_histories(order, res)
-    for i, last, why, hung in crashes:
-        if hung:
-            continue    # the call that did not return is in the trace and is judged by TLC
-        ctx.violation("crash:%s" % last.get("op", "?"),
-                      "the driver process died while executing %s: %s" % (json.dumps(last), why[:600]),
-                      {"script": order[i]})
-    if not hists:
+    total = {"accepted": 0, "rejected": 0, "unexamined": 0, "events": 0, "histories": 0,
+             "per_backend": {b: 0 for b in ("hashmap", "bbolt", "fstree", "badger")}, "per_cache": {c: 0 for c in ("none", "read", "write")}}
+    batches = [("plain", plain[i:i + 240]) for i in range(0, len(plain), 240)] + ([("timed", timed)] if timed else [])
+    base = 0
+    for kind, order in batches:
+        if kind == "plain":
+            res = vlib.drive(ctx, binp, order, chunk=max(2, (len(order) + 47) // 48), timeout=600, env=env)
+        else:
+            res = vlib.drive(ctx, binp, order, chunk=max(1, (len(order) + 31) // 32), timeout=1200, env=env, par=32)
+        hists, owner, crashes = split_histories(order, res)
+        del res
+        for i, last, why, hung in crashes:
+            if hung:
+                continue    # the call that did not return is in the trace and is judged by TLC
+            ctx.violation("crash:%s" % last.get("op", "?"),
+                          "the driver process died while executing %s: %s" % (json.dumps(last), why[:600]),
+                          {"script": order[i]})
+        for h in hists:
+            for e in h:
+                e.pop("h", None)
+                e.pop("c", None)
+        if hists:
+            ok, rej, unex = vlib.validate(ctx, "RecordStoreTrace", "RecordStoreTrace.cfg", hists, max_reject=12, timeout=1500)
+        else:
+            ok, rej, unex = 0, [], 0
+        for hi, ej, ev in rej:
+            si, ci = owner[hi]
+            cfg = hists[hi][0].get("cfg", {})
+            sc = dict(order[si])
+            sc["cfgs"] = [cfg]
+            before = [describe(e) for e in hists[hi][max(1, ej - 4):ej]]
+            ctx.violation(op_sig(hists[hi], ej),
+                          "history %d on %s (shadow delete %s, cache %s/%s), call %d is not allowed by spec/RecordStore.tla: %s\n  preceding calls: %s" % (
+                              base + si, cfg.get("b"), cfg.get("sd"), cfg.get("c"), cfg.get("cs"), ej, describe(ev), " | ".join(before)),
+                          {"script": sc, "observed": hists[hi][:ej + 1]})
+        total["accepted"] += ok
+        total["rejected"] += len(rej)
+        total["unexamined"] += unex
+        total["events"] += sum(len(h) - 1 for h in hists)
+        total["histories"] += len(hists)
+        for h in hists:
+            cfg = h[0].get("cfg", {})
+            if cfg.get("b") in total["per_backend"]:
+                total["per_backend"][cfg["b"]] += 1
+            if cfg.get("c") in total["per_cache"]:
+                total["per_cache"][cfg["c"]] += 1
+        base += len(order)
+        del hists, owner
+    if not total["histories"]:
         raise vlib.Inconclusive("the driver recorded nothing")
-    for h in hists:
-        for e in h:
-            e.pop("h", None)
-            e.pop("c", None)
-    ok, rej, unex = vlib.validate(ctx, "RecordStoreTrace", "RecordStoreTrace.cfg", hists, max_reject=12, timeout=1500)
-    for hi, ej, ev in rej:
-        si, ci = owner[hi]
-        cfg = hists[hi][0].get("cfg", {})
-        sc = dict(order[si])
-        sc["cfgs"] = [cfg]
-        before = [describe(e) for e in hists[hi][max(1, ej - 4):ej]]
-        ctx.violation(op_sig(hists[hi], ej),
-                      "history %d on %s (shadow delete %s, cache %s/%s), call %d is not allowed by spec/RecordStore.tla: %s\n  preceding calls: %s" % (
-                          si, cfg.get("b"), cfg.get("sd"), cfg.get("c"), cfg.get("cs"), ej, describe(ev), " | ".join(before)),
-                      {"script": sc, "observed": hists[hi][:ej + 1]})
-    nevents = sum(len(h) - 1 for h in hists)
-    return {"accepted": ok, "rejected": len(rej), "unexamined": unex, "events": nevents, "histories": len(hists),
-            "per_backend": {b: sum(1 for h in hists if h[0].get("cfg", {}).get("b") == b) for b in ("hashmap", "bbolt", "fstree", "badger")},
-            "per_cache": {c: sum(1 for h in hists if h[0].get("cfg", {}).get("c") == c) for c in ("none", "read", "write")}}
+    return total
 
 
 # ------------------------------------------------------------------------------------------ iterator hand-over
